@@ -270,3 +270,65 @@ func verifValid(p string) string {
 	vr.Assume(err == nil)
 	return p
 }
+
+// Verif_C18_DeliveryFollowsMembership: a channel that has already delivered a message, then a
+// history of membership changes chosen from a menu (a leaves and b joins - same count -, a leaves, b
+// joins, a leaves and joins again, a leaves and b joins and a joins again), then a second publish: the
+// second message reaches exactly the connections subscribed at that moment, once each. Whatever the
+// delivery loop remembers from the first message must not decide who gets the second.
+func Verif_C18_DeliveryFollowsMembership() {
+	ps := NewPubSub()
+	ctx := context.Background()
+	ca, fa := newConn()
+	cb, fb := newConn()
+	cc, fc := newConn()
+	byPattern := vr.Choose("by_pattern", 2) == 1
+	name := vr.Tok("name")
+	sub := name
+	if byPattern {
+		sub = "*"
+	}
+	ps.Subscribe(ctx, ca, []string{sub}, byPattern)
+	ps.Subscribe(ctx, cc, []string{sub}, byPattern) // a bystander that stays subscribed throughout
+	vr.Quiesce()
+	m1, m2 := vr.Tok("m1"), vr.Tok("m2")
+	ps.Publish(ctx, m1, name)
+	vr.Quiesce()
+	aIn, bIn := true, false
+	switch vr.Choose("history", 5) {
+	case 0:
+		ps.Unsubscribe(ctx, ca, []string{sub}, byPattern)
+		ps.Subscribe(ctx, cb, []string{sub}, byPattern)
+		aIn, bIn = false, true
+	case 1:
+		ps.Unsubscribe(ctx, ca, []string{sub}, byPattern)
+		aIn = false
+	case 2:
+		ps.Subscribe(ctx, cb, []string{sub}, byPattern)
+		bIn = true
+	case 3:
+		ps.Unsubscribe(ctx, ca, []string{sub}, byPattern)
+		ps.Subscribe(ctx, ca, []string{sub}, byPattern)
+	case 4:
+		ps.Unsubscribe(ctx, ca, []string{sub}, byPattern)
+		ps.Subscribe(ctx, cb, []string{sub}, byPattern)
+		ps.Subscribe(ctx, ca, []string{sub}, byPattern)
+		bIn = true
+	}
+	vr.Quiesce()
+	fa.written, fb.written, fc.written = nil, nil, nil
+	fa.writes, fb.writes, fc.writes = 0, 0, 0
+	ps.Publish(ctx, m2, name)
+	vr.Quiesce()
+	check := func(f *fakeConn, want bool, ob string) {
+		if want {
+			vr.Assert(string(f.written) == message(sub, m2), ob+".current_subscriber_gets_it_once")
+		} else {
+			vr.Assert(f.writes == 0, ob+".former_or_never_subscriber_gets_nothing")
+		}
+	}
+	check(fa, aIn, "C18.membership.a")
+	check(fb, bIn, "C18.membership.b")
+	check(fc, true, "C18.membership.bystander")
+	vr.Reach("end")
+}
